@@ -36,6 +36,109 @@ func TestC11(t *testing.T) {
 			unreachableOwner(rec, c)
 		}
 	}
+	q := rec.N(2, 12)
+	for c := 0; c < q; c++ {
+		if rec.Mine(c + 1) {
+			noQuorum(rec, c)
+		}
+	}
+}
+
+// "if the proposal is not applied in time it returns an error": the partition
+// group's leader loses its quorum (the other replica is down), so a proposal is
+// accepted by raft but can be neither committed nor applied. A caller whose own
+// deadline is longer than the proposal timeout must get an error, and nothing
+// may be reported as written.
+func noQuorum(rec *mon.Recorder, c int) {
+	rng := rec.Rand("c11-q", c)
+	desc := fmt.Sprintf("no-quorum case=%d nodes=2 partitions=1 replication=2", c)
+	rec.Current(desc)
+	cl := sim.New(sim.Options{Nodes: 2, Dir: os.Getenv("VERIF_SCRATCH") + fmt.Sprintf("/c11q-%d", c), TickEvery: 10 * time.Millisecond, Seed: rec.Seed() + int64(c)})
+	defer cl.Close()
+	if err := cl.Start(); err != nil {
+		rec.Inconclusive(desc + ": cluster start: " + err.Error())
+		return
+	}
+	dsId, meta, err := cl.CreateDataset(0, 3, 1, 2, pb.Space_Euclidean)
+	if err != nil {
+		rec.Inconclusive(desc + ": create dataset: " + err.Error())
+		return
+	}
+	pid := uuid.FromBytesOrNil(meta.Partitions[0].Id)
+	ctx := context.Background()
+	// a few acknowledged writes first
+	for i := 0; i < 3; i++ {
+		if err := cl.Nodes[rng.Intn(2)].Dataset(dsId).Insert(ctx, hx.Id(c*1000+i), []float32{1, 2, 3}, nil); err != nil {
+			rec.Inconclusive(desc + ": setup insert: " + err.Error())
+			return
+		}
+	}
+	var leader *sim.Node
+	cl.WaitFor(10*time.Second, func() bool {
+		for _, n := range cl.Nodes {
+			if g := n.PartitionRaft(dsId, pid); g != nil && g.VerifStatus().RaftState.String() == "StateLeader" {
+				leader = n
+				return true
+			}
+		}
+		return false
+	})
+	if leader == nil {
+		rec.Inconclusive(desc + ": no partition leader")
+		return
+	}
+	other := cl.Nodes[1-leader.Idx]
+	cl.Crash(other.Idx)
+	cl.Teardown(other.Idx)
+	replay := map[string]interface{}{"case": c, "seed": rec.Seed(), "desc": desc, "leader": leader.Id}
+	var wg sync.WaitGroup
+	for k, op := range []string{"insert", "update", "remove", "batch-insert"} {
+		if op == "batch-insert" {
+			wg.Wait() // a failing batch path may end the process: verdicts of the single forms first
+			rec.Checkpoint()
+		}
+		wg.Add(1)
+		go func(k int, op string) {
+			defer wg.Done()
+			id := hx.Id(c*1000 + 100 + k)
+			if op == "update" || op == "remove" {
+				id = hx.Id(c*1000 + k%3)
+			}
+			cctx, cancel := context.WithTimeout(ctx, 12*time.Second) // longer than the 5 s proposal timeout
+			defer cancel()
+			d := leader.Dataset(dsId)
+			var err error
+			t0 := time.Now()
+			func() {
+				defer func() {
+					if p := recover(); p != nil {
+						err = fmt.Errorf("panic: %v", p)
+						rec.Violation("no-quorum:panic:"+op, fmt.Sprintf("%s: %s panicked: %v", desc, op, p), replay)
+					}
+				}()
+				switch op {
+				case "insert":
+					err = d.Insert(cctx, id, []float32{9, 9, 9}, nil)
+				case "update":
+					err = d.Update(cctx, id, []float32{8, 8, 8}, nil)
+				case "remove":
+					err = d.Remove(cctx, id)
+				default:
+					var errs map[uuid.UUID]error
+					errs, err = d.BatchInsert(cctx, []*pb.BatchItem{{Id: id.Bytes(), Value: []float32{7, 7, 7}}})
+					if err == nil && errs[id] != nil {
+						err = errs[id]
+					}
+				}
+			}()
+			rec.Count("no_quorum_writes", 1)
+			if err == nil {
+				rec.Violation("ack:success-without-quorum:"+op, fmt.Sprintf("%s: %s on the partition leader (node %d) returned success after %v although the only other replica is down and nothing can be committed", desc, op, leader.Id, time.Since(t0).Round(time.Millisecond)), replay)
+			}
+		}(k, op)
+	}
+	wg.Wait()
+	rec.Case(mon.Digest(desc), true)
 }
 
 // (b) a write whose owner partition cannot be reached must fail. The owner
